@@ -586,6 +586,7 @@ type Contract struct {
 	External  bool
 	NoBody    bool   // contract only used at call sites
 	Blocking  bool   // channel sends in this body may block by design (rendezvous); no nonblocking obligation
+	AssumePre bool   // callee preconditions and run-time checks of this body are assumed, not checked (listed as unchecked)
 	LockOnly  bool   // only the lock obligations (C18) are generated for the body; everything else is assumed
 	Ghost     string // free-form note
 	Fresh     []string
@@ -667,7 +668,7 @@ func parseTags(s string) (props []string, label string, rest string) {
 }
 
 var clauseKW = map[string]bool{"requires": true, "ensures": true, "assigns": true, "pure": true, "trusted": true, "loop": true,
-	"at-call": true, "func": true, "spec": true, "ghost": true, "lemma": true, "axiom": true, "iterated": true, "signal": true, "fresh": true, "cover": true, "nobody": true, "lockonly": true, "blocking": true, "chaninv": true, "ghost-set": true, "moninv": true, "opaque": true, "iterates": true}
+	"at-call": true, "func": true, "spec": true, "ghost": true, "lemma": true, "axiom": true, "iterated": true, "signal": true, "fresh": true, "cover": true, "nobody": true, "lockonly": true, "assume-callee-pre": true, "blocking": true, "chaninv": true, "ghost-set": true, "moninv": true, "opaque": true, "iterates": true}
 
 // LoadContractFile parses one contract file. pkgPath qualifies short function keys ("" for spec files,
 // whose keys are already fully qualified).
@@ -921,6 +922,8 @@ func (cs *ContractSet) LoadContractText(text, path, pkgPath string, external boo
 				cur.NoBody = true
 			case "lockonly":
 				cur.LockOnly = true
+			case "assume-callee-pre":
+				cur.AssumePre = true
 			case "blocking":
 				cur.Blocking = true
 			case "iterated":
